@@ -96,6 +96,7 @@ type interpreter struct {
 	ld                 *Loaded
 	w                  *Worker
 	onceDone           map[*value]bool
+	syncMaps           map[*value]*omap
 	closedGlobal       map[chan value]bool
 	zeroBase           map[string]*value
 	stdStreams         map[string]*value // os.Stdin/Stdout/Stderr placeholders
@@ -928,6 +929,7 @@ func newInterpreter(ld *Loaded, w *Worker) *interpreter {
 		rtypeMethods:       ld.rtypeMethods,
 		runtimeErrorString: ld.runtimeErrStr,
 		onceDone:           map[*value]bool{},
+		syncMaps:           map[*value]*omap{},
 		closedGlobal:       map[chan value]bool{},
 		zeroBase:           map[string]*value{},
 		stdStreams:         map[string]*value{},
@@ -971,6 +973,7 @@ func (i *interpreter) resetRepoGlobals() {
 	// sync.Once values of the code under test start afresh as well (those
 	// of the standard library merely rebuild their tables)
 	i.onceDone = map[*value]bool{}
+	i.syncMaps = map[*value]*omap{}
 	for _, pkg := range i.prog.AllPackages() {
 		if !i.ld.isRepo(pkg.Pkg.Path()) {
 			continue
